@@ -450,22 +450,65 @@ def _lemmas(job):
   # the argument of floor() is unchanged when times are multiplied by k and
   # the tempo divided by k.  Together with h1_relative (result = floor(t*sps
   # + 1/2) on every path) this gives stretch invariance for symbolic k.
+  # Generated from the ASTs: the `*=` / `/=` updates of stretch_note_sequence,
+  # steps_per_quarter_to_steps_per_second and the product inside
+  # quantize_to_step, in exact real arithmetic.
+  import ast  # pylint: disable=g-import-not-at-top
   t_, k_, q_, spq_ = z3.Reals('t k q spq')
   t0 = time.time()
-  sN = z3.Solver()
-  sN.set('timeout', 60000)
-  sN.add(k_ > 0, q_ >= 10, q_ <= 480, spq_ >= 1, spq_ <= 96, t_ >= 0)
-  sN.add((t_ * k_) * (spq_ * (q_ / k_) / 60) != t_ * (spq_ * q_ / 60))
-  rN = str(sN.check())
+  try:
+    f_st, _ = fpk.get_function('sequences_lib', 'stretch_note_sequence')
+    f_cv, _ = fpk.get_function('sequences_lib',
+                               'steps_per_quarter_to_steps_per_second')
+    sm = fpk.StdModel(exact=True, tag='ls')
+    for v_ in (t_, k_, q_, spq_):
+      sm.declare_nonneg(v_)
+    factor = [a.arg for a in f_st.args.args][1]
+    upd = {}
+    for n_ in ast.walk(f_st):
+      if isinstance(n_, ast.AugAssign) and isinstance(n_.target, ast.Attribute) \
+          and ast.unparse(n_.value) == factor:
+        upd.setdefault(n_.target.attr, type(n_.op))
+    for fld in ('start_time', 'end_time', 'time', 'total_time', 'qpm'):
+      if fld not in upd:
+        raise fpk.UnsupportedConstruct('stretch_note_sequence does not update '
+                                       '%s by the factor' % fld)
+    if len(set(upd[f] for f in ('start_time', 'end_time', 'time',
+                                'total_time'))) != 1:
+      raise fpk.UnsupportedConstruct('time fields are not updated alike')
+    V_ = fpk.V
+    t2 = sm.binop(upd['start_time'](), V_(t_, 'fp'), V_(k_, 'fp'), f_st)
+    q2 = sm.binop(upd['qpm'](), V_(q_, 'fp'), V_(k_, 'fp'), f_st)
+    cp = [a.arg for a in f_cv.args.args]
+    sps1 = sm.function(f_cv, {cp[0]: V_(spq_, 'fp'), cp[1]: V_(q_, 'fp')})
+    sps2 = sm.function(f_cv, {cp[0]: V_(spq_, 'fp'), cp[1]: q2})
+    prod = [n_ for n_ in ast.walk(fnode) if isinstance(n_, ast.Assign) and
+            getattr(n_.targets[0], 'id', '') == 'unquantized_steps']
+    qp = [a.arg for a in fnode.args.args]
+    if len(prod) != 1:
+      raise fpk.UnsupportedConstruct('unquantized_steps not assigned once')
+    arg1 = sm.expr(prod[0].value, {qp[0]: V_(t_, 'fp'), qp[1]: sps1})
+    arg2 = sm.expr(prod[0].value, {qp[0]: t2, qp[1]: sps2})
+    dom = [k_ > 0, q_ >= 10, q_ <= 480, spq_ >= 1, spq_ <= 96, t_ >= 0]
+    sN = z3.Solver()
+    sN.set('timeout', 60000)
+    sN.add(dom + list(sm.side))
+    sN.add(sm.real(arg1) != sm.real(arg2))
+    rN = str(sN.check())
+    sN2 = z3.Solver()
+    sN2.add(dom + list(sm.side))
+    rN2 = str(sN2.check())
+  except fpk.UnsupportedConstruct as e:
+    rN, rN2 = 'unknown (cannot regenerate from the source: %s)' % e, 'unknown'
   obligations.append({'lemma': 'L-stretch', 'statement':
-                      'forall t>=0,k>0,q in [10,480],spq in [1,96] (reals): '
-                      '(t*k)*(spq*(q/k)/60) = t*(spq*q/60)', 'expect': 'unsat',
+                      'forall t>=0,k>0,q in [10,480],spq in [1,96] (reals): the '
+                      'product quantize_to_step floors is unchanged when every '
+                      'time is updated as stretch_note_sequence updates it and '
+                      'the tempo as it updates tempos (terms from the ASTs)',
+                      'expect': 'unsat',
                       'result': rN, 'discharged': rN == 'unsat',
                       'seconds': round(time.time() - t0, 3),
                       'backend': 'z3 nlsat'})
-  sN2 = z3.Solver()
-  sN2.add(k_ > 0, q_ >= 10, q_ <= 480, spq_ >= 1, spq_ <= 96, t_ >= 0)
-  rN2 = str(sN2.check())
   obligations.append({'lemma': 'L-stretch-twin', 'statement':
                       'assumptions of L-stretch satisfiable', 'expect': 'sat',
                       'result': rN2, 'discharged': rN2 == 'sat', 'seconds': 0,
